@@ -702,6 +702,8 @@ def op_copy(st, p, side, kind):
     new_pair = (new, other) if side == 0 else (other, new)
     if st.fam in ("large-loop", "dc"):
         judge_references(st, tag, kind, side, mask, src_vertices, src_cells, refs_before, new_pair)
+        if st.fam == "large-loop":
+            judge_tx_id_reference(st, tag, kind, (src, src_partner) if side == 0 else (src_partner, src), new_pair)
     elif partner_vertices is not None:
         if mask is not None and partner_vertices.shape[0] == mask.shape[0]:
             want = partner_vertices[mask]
@@ -744,6 +746,32 @@ def judge_references(st, tag, kind, side, mask, src_vertices, src_cells, refs_be
     if side == 0 and tx_pts != used:
         st.fail("copy-copies-partner", f"{tag}: complement copy is not exactly the loops / dipoles the copied receivers refer to",
                 {"class": st.name, "kind": kind, "extra": sorted(tx_pts - used), "missing": sorted(used - tx_pts)})
+
+
+def _tx_id_ref(entity):
+    meta = entity.metadata if isinstance(entity.metadata, dict) else {}
+    return (meta.get("EM Dataset") or {}).get("Tx ID property")
+
+
+def judge_tx_id_reference(st, tag, kind, src_pair, new_pair):
+    """large-loop: the shared parameters name the receivers' own 'Transmitter ID' data ("Tx ID
+    property").  When the source pair names the source receivers' own data, the copies - linked to
+    each other, not to the originals - name the copied receivers' own data, whichever side the
+    copy was made through."""
+    src_rx = src_pair[0]
+    if src_rx is None or new_pair[0] is None:
+        return
+    src_ref = _tx_id_ref(src_rx)
+    own_src = {str(c.uid) for c in src_rx.children}
+    if src_ref is None or str(src_ref) not in own_src:
+        return
+    own_new = {str(c.uid) for c in new_pair[0].children}
+    for label, ent in (("receivers", new_pair[0]), ("transmitters", new_pair[1])):
+        ref = _tx_id_ref(ent)
+        if ref is None or str(ref) not in own_new:
+            what = "nothing" if ref is None else ("data of the original receivers" if str(ref) in own_src else "an unknown identifier")
+            st.fail("copies-linked-to-each-other", f"{tag}: 'Tx ID property' of the copied {label} names {what}, not the copied receivers' own data",
+                    {"class": st.name, "kind": kind})
 
 
 def raw_metadata(b, uid):
